@@ -135,7 +135,21 @@ func genRecv(t *rapid.T) recvCase {
 	}
 	peers := []string{"192.168.7.9", "10.0.0.5", "172.16.3.3", "2001:db8:aaaa::1"}
 	rc.PeerIP = peers[rapid.IntRange(0, len(peers)-1).Draw(t, "peer")]
-	switch rapid.IntRange(0, 5).Draw(t, "allowKind") {
+	switch rapid.IntRange(0, 6).Draw(t, "allowKind") {
+	case 6:
+		// IPv4 ranges written in IPv4-mapped IPv6 notation: package net (whose ParseCIDR / IPNet.Contains define what an
+		// allow entry means) treats them as the IPv4 ranges they map
+		rc.Allow = [][]string{
+			{"::ffff:10.0.0.0/104"},
+			{"::ffff:192.168.0.0/112", "2001:db8::/32"},
+			{"::ffff:172.16.0.0/108", "::ffff:10.0.0.0/126"},
+			{"::ffff:0.0.0.0/96"},
+		}[rapid.IntRange(0, 3).Draw(t, "mapped")]
+		for _, a := range rc.Allow {
+			if _, n, err := net.ParseCIDR(a); err == nil && n.Contains(net.ParseIP(rc.PeerIP)) {
+				rc.peerAllow = true
+			}
+		}
 	case 5:
 		// nested networks that start at the same address: a narrow one the peer is not in, and a wide one it is in
 		// (membership computed below from the list, not from the way it was built)
